@@ -11,12 +11,12 @@ import c16
 
 PROPERTY = 'C02'
 MANIFEST = {
- 'level_text': 'Lean 4 theorems, kernel-checked, about a model of every command through which IRC users change accounts, capabilities, channel capabilities, ignores and default capabilities (register, unregister, changename, identify, unidentify, hostmask add/remove, set password/secure, admin capability add/remove, channel capability add/remove/set/unset/setdefault, admin ignore add/remove, owner defaultcapability, config supybot.capabilities) with arguments ranging over all strings, composed with the proved model of the database files (C16) for flush+reload: a step by a non-owner never enlarges the owner set; a capability appears on an account only through a capability-add command whose guard held for the caller; flush+reload never enlarges any capability set as long as no stored field contains a line break; these facts are lifted by induction to every finite history. The model is tied to /repo by a differential run against a live bot (full state compared after every command) that also evaluates the property statement on the implementation.',
- 'level_note': 'Trusted: Lean kernel; axioms propext/Classical.choice/Quot.sound only; this harness (generators bound what the correspondence sees); C03.Model for capability decisions and C16.Model for the file format (each with its own correspondence check). Modelled: bodies and converters of the listed commands in their fully explicit private-message form, the command capability gate, setUser/newUser/delUser, IrcUser.addAuth/clearAuth (timeoutIdentification 0), flush+reload of users/channels/ignores. Parameter: saltHash (an injective line-safe stand-in). Not modelled: the tokenizer (arguments are arbitrary strings; C13), in-channel addressing and nested commands (C01/C14), caches (C04), gpg, commands of owners.',
+ 'level_text': 'Lean 4 theorems, kernel-checked, about a model of every command through which IRC users change accounts, capabilities, channel capabilities, ignores and default capabilities (register, unregister, changename, identify, unidentify, hostmask add/remove, set password/secure, admin capability add/remove, channel capability add/remove/set/unset/setdefault, channel enable/disable, admin ignore add/remove, owner defaultcapability, config supybot.capabilities) with arguments ranging over all strings, composed with the proved model of the database files (C16) and with explicit events for everything that writes or reads them: flush+reload, a reload that reads the files as they are (SIGHUP, config reload), world.flush, the periodic upkeep with supybot.flush on or off, and the order in which Python wrote the capability sets. Proved: a step never enlarges the owner set; a capability appears on an account only through a capability-add command whose guard held for the caller, and then it is the capability named; a reload of either kind never enlarges any capability set; by induction, over every finite history of all these events - commands acknowledged or failing half-way, loads completing or stopping at any record - the owners stay among the initial ones (history_owner_safe_ev), and under the stated run condition the saved file never holds a capability memory has dropped (history_safe_all_ev). The model is tied to /repo by a differential run against a live bot (full state compared after every event, the saved files compared with the model\'s at every reload) that also evaluates the property statement on the implementation.',
+ 'level_note': 'Trusted: Lean kernel; axioms propext/Classical.choice/Quot.sound only; this harness (generators bound what the correspondence sees); C03.Model for capability decisions and C16.Model for the file format (each with its own correspondence check); harness/extractors/capsites.py (the 18 capability-mutation call sites of the source, matched against Cmd). Modelled: bodies and converters of the listed commands in their fully explicit private-message form, the command capability gate and ignores, setUser (incl. hostmaskPatternsIntersect)/newUser/delUser with the in-place mutation that survives a refused setUser, IrcUser.addAuth/clearAuth (timeoutIdentification 0), the saved users/channels/ignores files as records, IrcUserCreator.u / IrcChannelCreator.name carried from a stopped load into the next. Parameters: saltHash (a line-safe stand-in), the written order of capability sets (environment event, accepted only as a permutation, checked in Lean). Run condition of history_safe_all_ev only (not of history_owner_safe_ev): a capability-changing command that is not acknowledged left the state alone; the harness reports whether the implementation met it. Not modelled: the tokenizer (arguments are arbitrary strings; C13), in-channel addressing and nested commands (C01/C14), caches (C04), gpg, commands of owners, conf.supybot.databases.* (they choose file names, not when files are written).',
  'technique': 'Lean 4 proof (case analysis over commands, invariant over histories, reader-machine invariant for reload) + differential correspondence against a live bot',
  'design_ref': 'DESIGN.md §6 C02',
 }
-THEOREMS = ['C02.capSites_table', 'C02.cap_growth_entitled', 'C02.no_new_owner_step', 'C02.not_granted_owner', 'C02.reload_caps_sub',
+THEOREMS = ['C02.capSites_table', 'C02.wrapSpecs_table', 'C02.cmd_sources_listed', 'C02.private_table', 'C02.step_changes_only_if_allowed', 'C02.admin_gate', 'C02.cap_growth_entitled', 'C02.no_new_owner_step', 'C02.not_granted_owner', 'C02.reload_caps_sub',
             'C02.no_new_owner_reload', 'C02.reload_preserves_inv', 'C02.reloadNoFlush_preserves_inv', 'C02.step_preserves_inv', 'C02.history_safe',
             'C02.step_preserves_fileOk', 'C02.reloadNoFlush_caps_sub', 'C02.no_new_owner_reloadNoFlush', 'C02.reloadUsersFrom_file', 'C02.reloadNoFlush_owners', 'C02.step_ownInv', 'C02.history_owner_safe', 'C02.permCaps_perm', 'C02.fileOrder_fileOk', 'C02.fileOrder_fileOwn', 'C02.stepEv_ownInv', 'C02.history_owner_safe_ev', 'C02.history_safe_all_ev', 'C02.flushReload_fileOk',
             'C02.reloadNoFlush_fileOk', 'C02.step_safe_all', 'C02.history_safe_all', 'C02.st0_inv3',
@@ -33,6 +33,7 @@ RULE = ('histories of 10–60 commands from four non-owner hostmasks (unregister
 
 OWNER = 'root!r@owner.host'
 ACTORS = ['eve!e@evil.host', 'bob!b@bob.host', 'opp!o@op.host', 'adm!a@admin.host']
+IN_CHANNELS = ['#chan', '#chan', '#other', '#CHAN', '#pub']
 WILD = 'w!?@*'       # fewer than three non-wildcard characters (only ever sends `user register`)
 PWS = ['pw1', 'pw2', 'root-pw', ' pw', 'p w']
 
@@ -300,6 +301,9 @@ def enc_cmd(k, args):
         f = [k, wire.enc(args[0]), '~']
     return '\t'.join(f)
 
+def guard_applies(k):
+    return k not in ('flushReload', 'reload', 'flushAll', 'upkeep')
+
 def replied_ok(out):
     for m in out:
         t = m.args[-1] if m.args else ''
@@ -348,6 +352,7 @@ def run_history(b, r, n_steps, out, hist_id):
     kinds = []          # one entry per driver line after plugins/init: 'step' or 'order'
     I16 = type('I', (), {'ircdb': ircdb})
     for si in range(n_steps):
+        where = None; gate_block = False; plugin_anti = ''
         if pending:
             k, args = pending.pop(0)
         else:
@@ -427,14 +432,29 @@ def run_history(b, r, n_steps, out, hist_id):
                     guard = ('channel', args[0], bool(ircdb.checkCapability(actor, ircdb.makeChannelCapability(args[0], 'op'))))
             except Exception:
                 guard = (k, None, False)
-            out_msgs = bot.feed(b, actor, b.irc.nick, text)
+            # theorem admin_gate / step_changes_only_if_allowed, evaluated on the implementation: the sender of a
+            # command that changes anything is not one to whom the plugin's anti-capability applies
+            where = r.choice(IN_CHANNELS) if r.random() < 0.25 else None
+            plugin_anti = '-' + TEXT[k].split()[0]
+            try:
+                gate_block = bool(ircdb.checkCapability(actor, plugin_anti)) or \
+                    bool(where and ircdb.checkCapability(actor, ircdb.makeChannelCapability(where, plugin_anti)))
+            except Exception:
+                gate_block = True
+            # a quarter of the messages are sent in a channel, addressed to the bot by nick (Ev.cmdIn): the
+            # command gate then also consults #chan,-command / #chan,command and the channel's defaultAllow,
+            # `private` commands are refused, and the `op` converter may take the channel from the message
+            if where:
+                out_msgs = bot.feed(b, actor, where, '%s: %s' % (b.irc.nick, text))
+            else:
+                out_msgs = bot.feed(b, actor, b.irc.nick, text)
             ok = replied_ok(out_msgs)
         # a hostmask that two accounts recognise (login on one, pattern on another) makes getUserId raise
         # DuplicateHostmask and delete hostmasks (C04's territory): the history ends before that state
         if any(sum(1 for u in ircdb.users.users.values() if u.checkHostmask(a)) > 1 for a in ACTORS + [OWNER]):
             break
         cur = snap(b)
-        trail.append({'actor': actor, 'cmd': k, 'args': args})
+        trail.append({'actor': actor, 'cmd': k, 'args': args, 'where': where})
         # ---- property oracle on the implementation
         msgs = []
         new_owners = owners_of(cur) - owners_of(prev)
@@ -464,7 +484,12 @@ def run_history(b, r, n_steps, out, hist_id):
                         msgs.append('account %d gained %r through chanCapAdd on %r by %s (entitled for that channel only)'
                                     % (i, x, args[0], actor))
         changed = enc_state(cur) != enc_state(prev)
+        if changed and guard_applies(k) and gate_block:
+            msgs.append('%s by %s%s changed the state although %s applies to the sender (the command gate must refuse)'
+                        % (k, actor, ' in ' + where if where else '', plugin_anti))
         tags = [k] + (['changed'] if changed else []) + (['ok'] if ok else [])
+        if where:
+            tags.append('in-channel-ok' if ok else 'in-channel-refused')
         # the run condition of theorem history_safe_all, observed on the implementation (reported, not required)
         if k in ('capAdd', 'capRemove', 'chanCapAdd', 'chanCapRemove') and not ok and \
                 c16.enc_users(c16.canon_users(cur['users'])) != c16.enc_users(c16.canon_users(prev['users'])):
@@ -476,9 +501,12 @@ def run_history(b, r, n_steps, out, hist_id):
         if k in ('flushReload', 'reload') and getattr(ircdb.log, 'exc', None):
             tags.append('load-stopped')        # no longer a run condition: history_safe_all covers loads that stop
         c = Case({'history': hist_id, 'step': si, 'trail': list(trail)}, impl=('1' if ok else '0') + '\t' + enc_state(cur),
-                 oracle_ok=(not msgs), oracle_msg='; '.join(msgs), kind='history', tags=tuple(tags) if (changed or k in ('flushReload', 'reload', 'flushAll', 'upkeep')) else ())
+                 oracle_ok=(not msgs), oracle_msg='; '.join(msgs), kind='history', tags=tuple(tags) if (changed or where or k in ('flushReload', 'reload', 'flushAll', 'upkeep')) else ())
         steps.append(c)
-        drv.append('cmd\t%s\t%s' % (wire.enc(actor), enc_cmd(k, args)))
+        if where:
+            drv.append('cmdin\t%s\t%s\t%s' % (wire.enc(where), wire.enc(actor), enc_cmd(k, args)))
+        else:
+            drv.append('cmd\t%s\t%s' % (wire.enc(actor), enc_cmd(k, args)))
         kinds.append('step')
         prev = cur
     def fill(o, steps=steps, kinds=kinds):
@@ -524,7 +552,7 @@ def fill_model(groups):
             c.model = m
 
 def run(ctx):
-    build = leanbuild.ensure(PROPERTY, THEOREMS, thorough=ctx.thorough, extractors=['Preserve', 'IrcDbCaps', 'CapSites'])
+    build = leanbuild.ensure(PROPERTY, THEOREMS, thorough=ctx.thorough, extractors=['Preserve', 'IrcDbCaps', 'CapSites', 'WrapSpecs'])
     n = 2500 if ctx.thorough else 150
     groups = explore(ctx, n)
     if build.driver_ok:
@@ -543,7 +571,7 @@ def run(ctx):
         return [c for g in more for c in g[0] if c.oracle_ok is False]
     return verdict.conclude(PROPERTY, ctx.tier, ctx.seed, build, cases, search=search, rule=RULE, trusted_base=TRUSTED,
                             assumptions=['Python asserts enabled', 'supybot.databases.users.timeoutIdentification = 0 (default)',
-                                         'commands are sent in private with every argument explicit', 'actors are not owners'],
+                                         'commands are sent in private or in a channel addressed by nick, with every argument explicit', 'actors are not owners'],
                             t0=ctx.t0)
 
 def replay(ctx, path):
@@ -569,7 +597,11 @@ def replay(ctx, path):
             b.conf.supybot.flush.setValue(bool(args[0])); b.world.upkeep(); b.conf.supybot.flush.setValue(False); print('world.upkeep()')
         else:
             text = irc_text(b, k, args)
-            outm = bot.feed(b, actor, b.irc.nick, text)
-            print('%s: %s -> %s' % (actor, text, [m.args[-1] for m in outm][:1]))
+            where = st.get('where')
+            if where:
+                outm = bot.feed(b, actor, where, '%s: %s' % (b.irc.nick, text))
+            else:
+                outm = bot.feed(b, actor, b.irc.nick, text)
+            print('%s%s: %s -> %s' % (actor, ' in ' + where if where else '', text, [m.args[-1] for m in outm][:1]))
         print('   owners:', sorted(owners_of(snap(b))), ' caps:', {i: u['caps'] for i, u in snap(b)['users']})
     return 0
